@@ -83,12 +83,8 @@ pub fn check(cfg: &Config, ops: &[Op]) -> Vec<(String, String)> {
     for m in sess::filter(&e, &CATS) {
         v.push((sess::signature(&e, m), format!("{}: {}", cfg.name, m.detail)));
     }
-    // ephemerals fresh: every handshake write with an `e` drew from the RNG (scripted mode logs it)
-    if matches!(cfg.eph[0], Eph::Scripted(_)) {
-        for m in e.mism.iter().filter(|m| m.cat == Cat::RngNotFresh) {
-            v.push(("a handshake write with an ephemeral drew nothing from the RNG".into(), format!("{}: {}", cfg.name, m.detail)));
-        }
-    }
+    // (whether an ephemeral is drawn during its write is C06's clause, not judged here: "freshly generated random
+    // ephemeral keys" is the premise under which C02 must hold - the sessions above run under RNG ephemerals)
     v
 }
 
@@ -283,6 +279,13 @@ pub fn run(tier: Tier) -> i32 {
                 let _ = a;
                 pre.push(Op::SetPsk { side: Side::R, loc, klen: 32 });
                 pre.push(Op::SetPsk { side: Side::I, loc, klen: 32 });
+            }
+            // (a set_psk that refuses to replace a configured PSK leaves the parties with their different
+            // provisional keys: no honest session, nothing to judge)
+            let pe = Exec::run(&cfg, &pre);
+            if pe.build_err.is_some() || pe.steps.iter().any(|s| !s.real.is_ok()) {
+                ctx.count("psk replacement through set_psk refused (not judged)", 1);
+                return;
             }
             let mut ops = pre;
             ops.extend(sess::full_session_ops(p, &[4, 4, 4, 4], Mode::TT, &[Side::I, Side::R], &[2, 2]));
